@@ -429,6 +429,9 @@ func (s *runtimeState) resolveIngress(r *http.Request, requestPath string) (stri
 	}
 
 	for _, rt := range s.routes {
+		if !routeAcceptsIngress(rt) {
+			continue
+		}
 		if !router.MatchPath(requestPath, rt.Path) {
 			continue
 		}
@@ -452,6 +455,13 @@ func (s *runtimeState) resolveIngress(r *http.Request, requestPath string) (stri
 	return "", false
 }
 
+// routeAcceptsIngress reports whether a route may be served by the ingress
+// listener. Routes declared outbound or internal are fed through the Admin API
+// only and must never be reachable from ingress.
+func routeAcceptsIngress(rt config.CompiledRoute) bool {
+	return rt.ChannelType != config.ChannelOutbound && rt.ChannelType != config.ChannelInternal
+}
+
 func (s *runtimeState) allowedMethodsFor(r *http.Request, requestPath string) []string {
 	if r == nil {
 		return nil
@@ -468,6 +478,9 @@ func (s *runtimeState) allowedMethodsFor(r *http.Request, requestPath string) []
 	var out []string
 
 	for _, rt := range s.routes {
+		if !routeAcceptsIngress(rt) {
+			continue
+		}
 		if !router.MatchPath(requestPath, rt.Path) {
 			continue
 		}
